@@ -2,7 +2,7 @@
    plus non-vacuity examples (concrete runs of the model in which each clause's hypotheses hold). *)
 From Coq Require Import List NArith ZArith Bool Lia.
 From BLB Require Import Gen.Consts Store.Bytes Store.BytesProofs Store.MapProofs Store.Model Store.Proofs Store.WF Store.Conflict Store.Mono
-     Store.Steps Store.Monotone Store.Readd Store.FaultModel Store.Faults Store.Crash Store.CrashProofs C09.Model.
+     Store.Steps Store.Monotone Store.Readd Store.FaultModel Store.Faults Store.Crash Store.CrashProofs Store.CrashInv C09.Model.
 Import ListNotations.
 
 Lemma reachable_wf_lemma : forall m ops, wf (run (init m) ops).
@@ -343,6 +343,65 @@ Proof.
   split; [intros X; apply CV; now apply W1|]. rewrite (W2 CV). apply bump_stamp_disks.
 Qed.
 
+Lemma reachable_cinv : forall m xs, cinv (xrun (cinit m) xs).
+Proof. intros. apply cinv_xrun, cinv_init. Qed.
+
+Lemma durable_version_monotone_lemma :
+  forall m xs0,
+    let cs := xrun (cinit m) xs0 in
+    cinv cs /\
+    (forall pd t g, durable_copy cs pd t = Some g -> exists f, copy (vs cs) pd t = Some f /\ ver_le g f) /\
+    (forall x pd t g g', xop_ok_for t x -> durable_copy cs pd t = Some g ->
+                         durable_copy (xstep cs x) pd t = Some g' -> ver_le g g') /\
+    (forall xs pd t g g', Forall (xop_ok_for t) xs ->
+                          xstays (fun c => durable_copy c pd t <> None) cs xs ->
+                          durable_copy cs pd t = Some g -> durable_copy (xrun cs xs) pd t = Some g' ->
+                          ver_le g g') /\
+    (forall pd t, copy (vs (power_loss cs)) pd t = durable_copy cs pd t).
+Proof.
+  intros m xs0 cs. pose proof (reachable_cinv m xs0) as I. fold cs in I.
+  split; [exact I|]. split; [intros; eapply durable_le_visible; eauto; apply I|].
+  split; [intros; eapply x_durable_monotone_for; eauto|].
+  split; [intros; eapply durable_monotone_run_for; eauto|].
+  intros. apply power_loss_visible. apply I.
+Qed.
+
+Lemma acked_later_lemma :
+  forall m xs0 f t v cond cs' f' rv pd fl xs g',
+    let cs := xrun (cinit m) xs0 in
+    open_existing (vs cs) t = Op_ok pd fl ->
+    x_set_version cs f t v cond = (cs', f', (E_OK, rv)) ->
+    Forall (xop_ok_for t) xs ->
+    xstays (fun c => durable_copy c pd t <> None) cs' xs ->
+    durable_copy (xrun cs' xs) pd t = Some g' ->
+    (exists c, f_ver g' = Some c /\ (v <= c)%Z) /\
+    copy (vs (power_loss (xrun cs' xs))) pd t = Some g'.
+Proof.
+  intros m xs0 f t v cond cs' f' rv pd fl xs g' cs HO H OK ST Dg'.
+  pose proof (reachable_cinv m xs0) as I. fold cs in I.
+  destruct (acked_bump_synced cs f t v cond cs' f' rv pd fl HO H) as (DN & c' & C & L & _).
+  assert (I' : cinv cs').
+  { pose proof (good_x_set_version cs f t v cond I) as [X _]. rewrite H in X. exact X. }
+  assert (D0 : durable_copy cs' pd t = Some (mkfile (Some c') (f_data fl)))
+    by (unfold durable_copy; now rewrite DN).
+  pose proof (durable_monotone_run_for xs cs' pd t _ g' I' OK ST D0 Dg') as VL.
+  destruct (VL c' eq_refl) as (c & Hc & Lc). split; [exists c; split; [exact Hc|lia]|].
+  rewrite power_loss_visible; [exact Dg'|]. apply (cinv_xrun xs cs' I').
+Qed.
+
+Lemma faulted_ops_lemma :
+  forall m xs0 f o,
+    let cs := xrun (cinit m) xs0 in
+    wf (vs cs) /\ wf (vs (fst (x_step cs f o))) /\
+    (is_pull o = false ->
+     forall pd t fl fl', copy (vs cs) pd t = Some fl -> copy (vs (fst (x_step cs f o))) pd t = Some fl' ->
+                         ver_le fl fl').
+Proof.
+  intros m xs0 f o cs. pose proof (reachable_cinv m xs0) as I. fold cs in I.
+  split; [apply I|]. split; [apply (cinv_xstep cs (XOp f o) I)|].
+  intros NP pd t fl fl'. now apply x_visible_monotone.
+Qed.
+
 (* ---------- non-vacuity: concrete histories in which the clauses' hypotheses hold ---------- *)
 Open Scope N_scope.
 Definition d5 : rle := [(3, 5)].
@@ -472,3 +531,20 @@ Example ex_power_loss :
   (let '(cs2, r2) := x_step cs None (SetVersion 0 3%Z None) in
    r2 = RSetV E_OK 3%Z /\ copy (vs (power_loss cs2)) 0 0 = Some (mkfile (Some 3%Z) d5)).
 Proof. vm_compute. auto. Qed.
+
+(* ---------- non-vacuity: later histories ---------- *)
+(* after the acknowledged bump to 3: a write whose Close fails, a read (its successful Close syncs the written bytes),
+   a bump attempt to 4 whose Close fails (visible 4, durable 3), a pull of ANOTHER tract, then the power fails: the copy comes back at version 3 >= 3 *)
+Example ex_later_history :
+  let cs := xrun (cinit false) (map (XOp None) h1) in
+  let cs' := fst (x_step cs None (SetVersion 0 3%Z None)) in
+  let xs := [XOp (Some 2%nat) (Write 0 3%Z d7 0); XOp None (Read 0 3%Z 1 0);
+             XOp (Some 2%nat) (SetVersion 0 4%Z None); XOp (Some 1%nat) (PullTract 1 [(E_OK, d7)] 5%Z 1)] in
+  Forall (xop_ok_for 0) xs /\
+  xstays (fun c => durable_copy c 0 0 <> None) cs' xs /\
+  cur_ver (vs (xrun cs' xs)) 0 = Some 4%Z /\
+  (exists g, durable_copy (xrun cs' xs) 0 0 = Some g /\ f_ver g = Some 3%Z) /\
+  (exists g, copy (vs (power_loss (xrun cs' xs))) 0 0 = Some g /\ f_ver g = Some 3%Z).
+Proof.
+  vm_compute. repeat split; try discriminate; try (repeat constructor; discriminate); eauto.
+Qed.
